@@ -135,12 +135,14 @@ def run_path(cset, fc, prefix, res, opts):
         I.old_heap = entry
         clsname = fc.key.split(".")[0] if "." in fc.key else None
         cspec = cset.classes.get(clsname) if clsname else None
-        if cspec is not None and "self" in env and not fc.key.endswith(".__init__"):
+        if cspec is not None and "self" in env and not fc.key.endswith(".__init__") and not fc.no_inv:
             for label, inv in class_invariants(cset, clsname):
                 ctx.assume(I.spec_bool(inv))
         for name, text in fc.lets.items():
             env[name] = I.spec_val(text)
             entry_env[name] = env[name]
+        for d in fc.defs:
+            ctx.assume(I.spec_bool(d))
         for label, req in fc.requires:
             ctx.assume(I.spec_bool(req))
         I.old_heap = None
@@ -167,7 +169,7 @@ def run_path(cset, fc, prefix, res, opts):
             for label, ens in fc.ensures:
                 f = I.spec_bool(ens)
                 ctx.prove("%s:%s" % (fc.key, label), _ctext(ens), f, info={"kind": "ensures"})
-            if cspec is not None and "self" in entry_env:
+            if cspec is not None and "self" in entry_env and not fc.no_inv:
                 for label, inv in class_invariants(cset, clsname):
                     f = I.spec_bool(inv)
                     ctx.prove("%s:%s" % (fc.key, label), _ctext(inv), f, info={"kind": "class-invariant"})
